@@ -1,15 +1,55 @@
-"""Source-level replay cases per harness: the concretisations of the harness's symbolic shape, with the harness's
-postcondition phrased over the printed output of the real pipeline."""
+"""Source-level replay cases per harness: the concretisations of the harness's shape as JSX/TSX source, with the
+harness's postcondition phrased over the printed output of the REAL pipeline (parse -> resolver -> visitor -> codegen).
+`forbid`/`expect` are regexes over the printed module; `ok_if_error`: an error diagnostic satisfies the contract."""
 
-def _opts(**kw):
-    return kw
+O = dict(optimize=True)
+RT = dict(resolveType=True)
+
+
+def dc(opts_arg):
+    return "import { defineComponent } from 'vue'; const user = 1; defineComponent((props: { a: string }) => {}%s);" % opts_arg
+
 
 CASES = {
+    # ---- C02/C03/C10: Fragment ----
     "tag_fragment_not_component": [
         dict(id="user-Fragment-first", source="import { Fragment } from 'vue'; const a = <Fragment><b/></Fragment>;", forbid=[r"default:\s*\(\)\s*=>"]),
         dict(id="user-Fragment-after-<>", source="import { Fragment } from 'vue'; const z = <></>; const a = <Fragment><b/></Fragment>;", forbid=[r"default:\s*\(\)\s*=>"]),
     ],
-    "tag_namespaced_no_jsx_leak": [
-        dict(id="ns-tag", source="const a = <a:b />;", forbid=[r"\(a:b,"], ok_if_error=True),
+    "tag_namespaced_no_jsx_leak": [dict(id="ns-tag", source="const a = <a:b />;", forbid=[r"\(a:b,"], ok_if_error=True)],
+    # ---- C15 ----
+    "pragmac_importsource": [dict(id="importsource", source="/** @jsxImportSource vue */\nconst a = <div />;", expect=[r"_createVNode\(\"div\""])],
+    "pragmac_frag": [dict(id="frag", source="/** @jsxFrag F */\nconst a = <div />;", expect=[r"_createVNode\(\"div\""])],
+    "pragmac_runtime": [dict(id="runtime", source="/** @jsxRuntime classic */\nconst a = <div />;", expect=[r"_createVNode\(\"div\""])],
+    "pragmac_noname": [dict(id="noname", source="/* @jsx */\nconst a = <div />;", expect=[r"_createVNode\(\"div\""])],
+    "pragmac_noname_star": [dict(id="noname-star", source="/** @jsx  */\nconst a = <div />;", expect=[r"_createVNode\(\"div\""])],
+    "pragmac_trailing_words": [dict(id="trailing", source="/* @jsx h more words */\nconst a = <div />;", expect=[r"= h\(\"div\""], forbid=[r"h more words\("])],
+    # ---- C20 ----
+    "inject_same_string_key": [dict(id="string-key", syntax="tsx", options=RT, source=dc(", { 'props': user }"), forbid=[r"props:\s*\{\s*a:"])],
+    "inject_shorthand_key": [dict(id="shorthand-key", syntax="tsx", options=RT, source="import { defineComponent } from 'vue'; const props = 1; defineComponent((p: { a: string }) => {}, { props });", forbid=[r"props:\s*\{\s*a:"])],
+    "inject_literal_with_spread": [dict(id="literal-spread", syntax="tsx", options=RT, source=dc(", { ...user }"), forbid=[r"\.\.\.user,\s*props:"])],
+    # ---- C17 ----
+    "rt_bigint_literal": [dict(id="bigint-literal", syntax="tsx", options=RT, source="import { defineComponent } from 'vue'; defineComponent((props: { a: 1n }) => {});", expect=[r"type:\s*BigInt"])],
+    # ---- C04 ----
+    "dirspell_camel_inner_upper": [dict(id="vMyDir", source="const a = <div vMyDir={x} />;", expect=[r"resolveDirective\(\"myDir\"\)"])],
+    "dirspell_one_modifier": [dict(id="v-foo_a", source="const a = <div v-foo_a={x} />;", expect=[r"void 0,\s*\{\s*a: true"], forbid=[r"x,\s*\"a\""])],
+    "dirspell_two_modifiers": [dict(id="v-foo_b_a", source="const a = <div v-foo_b_a={x} />;", expect=[r"void 0,\s*\{\s*a: true,\s*b: true"])],
+    "dirval_nonident_modifier": [dict(id="a-b", source="const a = <div v-foo={[x, ['a-b']]} />;", forbid=[r"\{\s*a-b:"])],
+    "dirval_string": [dict(id="string-value", source="const a = <div v-foo=\"s\" />;", forbid=[r"resolveDirective\(\"foo\"\),\s*\n?\s*\]"], ok_if_error=True)],
+    "dirval_absent": [dict(id="absent-value", source="const a = <div v-foo />;", forbid=[r"resolveDirective\(\"foo\"\),\s*\n?\s*\]"], ok_if_error=True)],
+    "dirval_empty_array": [dict(id="empty-array", source="const a = <div v-foo={[]} />;", forbid=[r"resolveDirective\(\"foo\"\),\s*\n?\s*\]"], ok_if_error=True)],
+    "dirval_hole": [dict(id="hole", source="const a = <div v-foo={[, y]} />;", forbid=[r"resolveDirective\(\"foo\"\),\s*\n?\s*,"], ok_if_error=True)],
+    "vhtml_element": [dict(id="v-html-element", source="const a = <div v-html=<b/> />;")],
+    "vhtml_fragment": [dict(id="v-html-fragment", source="const a = <div v-html=<></> />;")],
+    "vtext_element": [dict(id="v-text-element", source="const a = <div v-text=<b/> />;")],
+    "vtext_fragment": [dict(id="v-text-fragment", source="const a = <div v-text=<></> />;")],
+    # ---- C05 ----
+    "vmodel_suffix_modifier": [
+        dict(id="v-model_trim-element", source="const a = <input v-model_trim={x} />;", expect=[r"onUpdate:modelValue"], forbid=[r"onUpdate:trim"]),
+        dict(id="v-model_trim-component", source="const a = <Comp v-model_trim={x} />;", expect=[r"modelModifiers"], forbid=[r"onUpdate:trim"]),
     ],
+    "step_vmodel_computed": [dict(id="computed-arg", source="const a = <Comp v-model={[v, arg]} />;", expect=[r"\"onUpdate:\" \+ arg"])],
+    "darm_vmodel_computed": [dict(id="computed-arg", source="const a = <Comp v-model={[v, arg]} />;", expect=[r"\"onUpdate:\" \+ arg"])],
+    # ---- C13 ----
+    "step_nativeon": [dict(id="nativeOn-transformOn", options=dict(optimize=True, transformOn=True), source="const a = <div nativeOn={x} />;", forbid=[r"\[\s*\"nativeOn\"\s*\]"])],
 }
